@@ -18,7 +18,9 @@ def cells_vs_quadrature(inp):
     which = inp.get('obligation', '')
     bad, checked = [], 0
     objs = [oqupy.PowerLawSD(alpha=0.3, zeta=1.0, cutoff=2.0, cutoff_type='exponential', temperature=0.0),
-            oqupy.PowerLawSD(alpha=0.2, zeta=3.0, cutoff=1.5, cutoff_type='gaussian', temperature=0.7)]
+            oqupy.PowerLawSD(alpha=0.2, zeta=3.0, cutoff=1.5, cutoff_type='gaussian', temperature=0.7),
+            # hard cutoff with a temperature far below the cutoff frequency (cutoff / T = 80)
+            oqupy.PowerLawSD(alpha=0.25, zeta=1.0, cutoff=4.0, cutoff_type='hard', temperature=0.05)]
     if 'time_1 != 0' in which:
         cases = [('upper-triangle', 0.1, 0.3, None)]
     else:
